@@ -232,7 +232,8 @@ Inductive op :=
   | OEq (o : container)         (* c == o *)
   | OEqRev (o : container)      (* o == c *)
   | ODAssign (o : container)    (* detector.<bucket> = o *)
-  | ODEmpty (reset : bool).     (* detector.empty(reset) *)
+  | ODEmpty (reset : bool)      (* detector.empty(reset) *)
+  | OAsArray.                   (* np.asarray(c)  (the `__array__` protocol: a read) *)
 
 Section WithTables.
 Variable tb : tables.
@@ -383,6 +384,15 @@ Definition read3d (c : container) : outcome :=
   | Some a => if is_xr a then RetArr a else Raise TypeError
   end.
 
+(* `np.asarray(c)`:
+     ArrayBase.__array__ : `if not isinstance(self._array, np.ndarray): raise TypeError`, else the stored array;
+     Photon.__array__    : `if self._array is None: raise ValueError`, else np.asarray(self.array) *)
+Definition asarray_res (c : container) : outcome :=
+  match c_content c with
+  | None => if is_photon (c_kind c) then Raise ValueError else Raise TypeError
+  | Some a => if is_xr a then Raise TypeError else RetArr a
+  end.
+
 Definition zeros_f64 (r c : nat) : arr :=
   {| a_xr := None; a_shape := [r; c]; a_dt := F64; a_data := repeat (Fin 0) (r * c) |}.
 
@@ -474,6 +484,7 @@ Definition step (c : container) (o : op) : container * outcome :=
           | None => (c, Done)
           end
       end
+  | OAsArray => (c, asarray_res c)
   end.
 
 Definition run (c : container) (ops : list op) : container :=
@@ -702,7 +713,7 @@ Definition step_violations (k : ckind) (r c : nat) (o : op) (before : option arr
   (if inv_b cb && negb (inv_b ca) then [1] else [])
   ++ (if is_raise (o_out ob) && negb (state_eqb before (o_state ob)) then [2] else [])
   ++ match o with
-     | ORead | ORead3D =>
+     | ORead | ORead3D | OAsArray =>
          (match before with
           | None => if is_raise (o_out ob) then [] else [3]
           | Some a => match o_out ob with
